@@ -566,6 +566,8 @@ def dyadic(rng, shape, lo=-8, hi=8, den=4):
 
 def quiet_tf():
     os.environ.setdefault("TF_CPP_MIN_LOG_LEVEL", "3")
+    # oneDNN kernels give wrong / non-deterministic strided conv2d results on this CPU (TF 2.21)
+    os.environ.setdefault("TF_ENABLE_ONEDNN_OPTS", "0")
     os.environ.setdefault("CUDA_VISIBLE_DEVICES", "")
     import warnings
     warnings.filterwarnings("ignore")
